@@ -3,6 +3,9 @@
 READ_RUN = {"harness": "hread", "driver": "gatedrv", "fields": None, "corpus": "life",
             "quick": {"n": 150, "shards": 16}, "thorough": {"n": 2500, "shards": 32}}
 
+LIFE_RUN = {"harness": "hlife", "driver": "lifedrv", "fields": None, "corpus": "life3",
+            "quick": {"n": 120, "shards": 16}, "thorough": {"n": 1500, "shards": 32}}
+
 PROPS = {
     "C02": {
         "manifest": {
@@ -32,5 +35,32 @@ PROPS = {
                         "a short read on a stream socket means the receive queue was empty at that instant (the code's own assumption)",
                         "each model step is atomic in the Go code (mutex / single atomic operation / single poller goroutine per fd)",
                         "ET mode's iteration limit 2^31-1 is treated as unbounded"],
+    },
+    "C03": {
+        "manifest": {
+            "text": "Lean theorems on a lifecycle model at critical-section granularity (closed flag flipped under the mutex in "
+                    "five places, teardown outside the lock only by the flipper, addConn's three statements, dial state): for every "
+                    "kind of conn, every history and every interleaving — at most one close notification and exactly one once the "
+                    "teardown is complete, never before the open notification, closeErr = argument of the flipping step and stable "
+                    "afterwards, operations after the flip fail without a syscall, Close idempotent, dial outcome reported at most "
+                    "once / exactly once when the dial is over / success only if the kernel connected. The model is tied to the code "
+                    "by differential execution of the REAL engine (AddConn, acceptor, DialAsync with scripted connect/SO_ERROR, "
+                    "poller loop, N closers released from a barrier, deadlines, injected write/flush/sendfile/read errors, overflow, "
+                    "Stop) on virtual descriptors plus real loopback sockets, with direct oracles on the implementation alone",
+            "note": "proof, partial: goroutine-level atomicity of the flag flip / of each model step and 'nobody reaches a conn before "
+                    "it was announced' are assumptions (enabling conditions of the model); winner of concurrent closers and of two "
+                    "timers armed for the same instant are inputs observed from the run; model fidelity is sampled on every run; the "
+                    "real-socket steps (accept, client close/reset, real refused dial) are supporting evidence",
+            "technique": "Lean 4 proof (inductive invariant over a small-step transition system) + differential correspondence"},
+        "lean": ["NbioVerif.Properties.C03"], "drivers": ["lifedrv"], "harness": ["hlife"],
+        "runs": [LIFE_RUN],
+        "oracles": ["c03-"],
+        "rule": "case = (epoll mode, NPoller, write-buffer limit, history over up to four conns of kinds added/dialed/UDP listener+"
+                "sessions/accepted/really dialed: traffic, scripted kernel answers, dial outcomes, k concurrent closers with distinct "
+                "errors, deadlines, operations after close, Stop); distinct by hash of (configuration, op kinds with flags/answers/"
+                "closer counts/dial outcome/timer cause); non-trivial iff a conn was closed, dialed or hit by an event",
+        "assumptions": ["the test-and-set of the closed flag is atomic (mutex); each model step is atomic in the Go code",
+                        "a conn is not reachable by other goroutines before its open notification / dial registration",
+                        "the kernel reports the result of a non-blocking connect through writability and SO_ERROR"],
     },
 }
